@@ -839,6 +839,91 @@ def r11g(ctx: Context) -> None:
             rule.ok(key, "success is returned only when the count is at least 1")
 
 
+def r11j(ctx: Context) -> None:
+    """'A pragma removes the failures of exactly the named rules': the recogniser decides which lines are pragmas,
+    the compiler cuts the command out of the recorded line.  The two must read the line the same way: what the
+    recogniser strips before it looks for the closing sequence the compiler must strip before it cuts that
+    sequence off, and every closing sequence the documentation allows must be cut off whole - otherwise the last
+    rule id of a pragma that the recogniser accepted keeps a tail ('md009--') and the pragma names no rule."""
+    prog = ctx.prog
+    rule = ctx.rule("R11j", "recogniser and compiler of pragma lines agree on trailing whitespace and on the documented closing sequences", 2)
+    recogniser = prog.method(PRAGMA_EXT, "look_for_pragmas")
+    compiler = prog.method(PRAGMA_EXT, "compile_single_pragma")
+
+    def normalisations(func: FuncInfo, expr: ast.AST, depth: int = 0) -> Set[str]:
+        """string methods applied on the way from the recorded line to ``expr``"""
+        found: Set[str] = set()
+        if depth > 6:
+            return found
+        if isinstance(expr, ast.Call) and isinstance(expr.func, ast.Attribute):
+            found.add(expr.func.attr)
+            found |= normalisations(func, expr.func.value, depth + 1)
+        elif isinstance(expr, ast.Subscript):
+            found |= normalisations(func, expr.value, depth + 1)
+        elif isinstance(expr, ast.Name):
+            for node in walk_local(func.node):
+                if isinstance(node, (ast.Assign, ast.AnnAssign)) and getattr(node, "value", None) is not None:
+                    targets = node.targets if isinstance(node, ast.Assign) else [node.target]
+                    if any(isinstance(t, ast.Name) and t.id == expr.id for t in targets):
+                        found |= normalisations(func, node.value, depth + 1)
+        return found
+
+    tests = [n for n in walk_local(recogniser.node) if isinstance(n, ast.Call) and isinstance(n.func, ast.Attribute) and n.func.attr == "endswith" and n.args]
+    if not tests:
+        raise AnalysisError("look_for_pragmas: the test for the closing sequence was not found")
+    accepted: Set[str] = set()
+    recogniser_strips = False
+    for test in tests:
+        for sub in ast.walk(test.args[0]):
+            if isinstance(sub, ast.Constant) and isinstance(sub.value, str):
+                accepted.add(sub.value)
+        recogniser_strips = recogniser_strips or bool({"rstrip", "strip"} & normalisations(recogniser, test.func.value))
+    cuts: List[Tuple[ast.AST, Optional[str], ast.AST]] = []  # (node, sequence cut off, text it is cut from)
+    for node in walk_local(compiler.node):
+        if isinstance(node, ast.Subscript) and isinstance(node.slice, ast.Slice) and node.slice.upper is not None:
+            upper = node.slice.upper
+            if isinstance(upper, ast.UnaryOp) and isinstance(upper.op, ast.USub):
+                sources = [upper.operand]
+                if isinstance(upper.operand, ast.Name):  # a length kept in a local
+                    sources = [n.value for n in walk_local(compiler.node) if isinstance(n, (ast.Assign, ast.AnnAssign)) and getattr(n, "value", None) is not None
+                               and any(isinstance(t, ast.Name) and t.id == upper.operand.id for t in (n.targets if isinstance(n, ast.Assign) else [n.target]))]
+                literals = [sub.value for source in sources for sub in ast.walk(source) if isinstance(sub, ast.Constant) and isinstance(sub.value, str)]
+                for literal in literals or [None]:
+                    cuts.append((node, literal, node.value))
+        if isinstance(node, ast.Call) and isinstance(node.func, ast.Attribute) and node.func.attr == "removesuffix" and node.args and isinstance(node.args[0], ast.Constant):
+            cuts.append((node, node.args[0].value, node.func.value))
+    if not cuts:
+        raise AnalysisError("compile_single_pragma: the place where the closing sequence is cut off was not found")
+    compiler_strips = any({"rstrip", "strip"} & normalisations(compiler, text) for _node, _literal, text in cuts)
+    key = func_key(compiler) + ": trailing whitespace"
+    if recogniser_strips and not compiler_strips:
+        rule.fail(key, where(compiler, cuts[0][0]), f"the recogniser looks for the closing sequence after stripping trailing whitespace, the compiler cuts the last characters of the line as recorded ('{norm(cuts[0][0])[:70]}'): a pragma followed by a blank (allowed by the documentation and accepted by the recogniser) names the rule 'id--' and suppresses nothing")
+    else:
+        rule.ok(key, "both strip trailing whitespace before the closing sequence" if recogniser_strips else "neither strips")
+    # the documented closing sequences
+    doc = prog.source.read("newdocs/src/extensions/pragmas.md")
+    documented: List[str] = []
+    import re as _re
+
+    flat = " ".join(doc.split())
+    match = _re.search(r"ending with the character sequence ((?:`[^`]+`(?: or |, )?)+)", flat)
+    if match:
+        documented = _re.findall(r"`([^`]+)`", match.group(1))
+    if not documented:
+        raise AnalysisError("pragmas.md: the sentence naming the closing sequences was not found")
+    handled = {literal for _node, literal, _text in cuts if literal} | {
+        sub.value for node in walk_local(compiler.node) if isinstance(node, ast.Call) and isinstance(node.func, ast.Attribute) and node.func.attr == "endswith"
+        for arg in node.args for sub in ast.walk(arg) if isinstance(sub, ast.Constant) and isinstance(sub.value, str)
+    }
+    for sequence in documented:
+        key = func_key(compiler) + f": closing sequence {sequence}"
+        if sequence in handled:
+            rule.ok(key, "cut off whole")
+        else:
+            longest = max((h for h in handled if sequence.endswith(h)), key=len, default=None)
+            rule.fail(key, where(compiler, cuts[0][0]), f"the documentation allows a pragma to end in '{sequence}' (the recogniser accepts it: it ends in '{longest or sorted(accepted)[0]}'), but the compiler only cuts {sorted(handled)}: the rest stays on the last rule id ('md009-'), so the pragma names no rule and suppresses nothing")
+
+
 def run(ctx: Context) -> None:
     r11a(ctx)
     c07.r07d(ctx)
@@ -852,3 +937,4 @@ def run(ctx: Context) -> None:
     r11f(ctx)
     r11g(ctx)
     r11_table_writers(ctx, "R11i")
+    r11j(ctx)
